@@ -5,6 +5,7 @@ import (
 	"flag"
 	"fmt"
 	"os"
+	"regexp"
 	"sort"
 
 	"ddcheck/core"
@@ -17,6 +18,8 @@ func main() {
 	fnKey := flag.String("fn", "", "function key")
 	outc := flag.String("outcome", "return", "return | call:<key>")
 	ssaDump := flag.Bool("ssa", false, "dump SSA")
+	iter := flag.Int("iter", 0, "iteration mode: number of the loop (by header order)")
+	events := flag.String("events", "", "regexp of callee names recorded as events")
 	flag.Parse()
 	p, err := core.Load(*repo)
 	if err != nil {
@@ -63,6 +66,45 @@ func main() {
 		}
 		return "", false
 	}}
+	if *events != "" {
+		re := regexp.MustCompile(*events)
+		opts.Event = func(in ssa.Instruction, c *core.Canon) (string, bool) {
+			if call, ok := in.(ssa.CallInstruction); ok {
+				if v, ok := call.(ssa.Value); ok {
+					s := c.Of(v)
+					if re.MatchString(s) {
+						return s, true
+					}
+				} else if re.MatchString(core.CalleeKey(call)) {
+					return core.CalleeKey(call), true
+				}
+			}
+			if st, ok := in.(*ssa.Store); ok {
+				s := "store " + c.Of(st.Addr) + " = " + c.Of(st.Val)
+				if re.MatchString(s) {
+					return s, true
+				}
+			}
+			return "", false
+		}
+	}
+	if *iter > 0 {
+		n := 0
+		for _, b := range fn.Blocks {
+			isHeader := false
+			for _, pr := range b.Preds {
+				if b.Dominates(pr) {
+					isHeader = true
+				}
+			}
+			if isHeader {
+				n++
+				if n == *iter {
+					opts.IterateAt = b
+				}
+			}
+		}
+	}
 	paths, atoms, err := core.EnumerateDecisions(p, fn, opts)
 	if err != nil {
 		fmt.Println("ERR", err)
